@@ -58,27 +58,23 @@ var vfC14Stmts = []vfC14Stmt{
 // vfC14Family are the names of the near-colliding statements (with A, which they resemble).
 var vfC14Family = []string{"A", "D1", "D2", "D3", "E1", "F1", "F2", "F3", "G1", "G2", "G3", "G4", "H1", "H2"}
 
-// Fresh statements for the burst driver: "Z<n>" <-> "SELECT v FROM vfz<n> WHERE k = ?".
-var vfC14Fresh sync.Map // name -> *vfC14Stmt
+// Statements for the burst driver, "Z<n>": fresh in the sense that every scenario has its own session and
+// uses each at most in one round.
+const vfC14NFresh = 64
 
-func vfC14FreshStmt(n int) *vfC14Stmt {
-	name := fmt.Sprintf("Z%d", n)
-	if v, ok := vfC14Fresh.Load(name); ok {
-		return v.(*vfC14Stmt)
+func init() {
+	for n := 0; n < vfC14NFresh; n++ {
+		vfC14Stmts = append(vfC14Stmts, vfC14Stmt{fmt.Sprintf("Z%d", n), fmt.Sprintf("SELECT v FROM vfz%d WHERE k = ?", n), 1, 1})
 	}
-	st := &vfC14Stmt{name, fmt.Sprintf("SELECT v FROM vfz%d WHERE k = ?", n), 1, 1}
-	v, _ := vfC14Fresh.LoadOrStore(name, st)
-	return v.(*vfC14Stmt)
 }
+
+func vfC14FreshStmt(n int) *vfC14Stmt { return vfC14StmtByName(fmt.Sprintf("Z%d", n%vfC14NFresh)) }
 
 func vfC14StmtByName(n string) *vfC14Stmt {
 	for i := range vfC14Stmts {
 		if vfC14Stmts[i].Name == n {
 			return &vfC14Stmts[i]
 		}
-	}
-	if v, ok := vfC14Fresh.Load(n); ok {
-		return v.(*vfC14Stmt)
 	}
 	return nil
 }
@@ -88,12 +84,6 @@ func vfC14StmtByText(t string) *vfC14Stmt {
 	for i := range vfC14Stmts {
 		if vfC14Stmts[i].Text == t {
 			return &vfC14Stmts[i]
-		}
-	}
-	var n int
-	if _, err := fmt.Sscanf(t, "SELECT v FROM vfz%d WHERE k = ?", &n); err == nil {
-		if st := vfC14FreshStmt(n); st.Text == t {
-			return st
 		}
 	}
 	return nil
@@ -229,6 +219,7 @@ type vfC14Env struct {
 	maxForget int
 	forgets   int
 	maxDelay  time.Duration
+	lean      bool   // burst driver: only what PreparedOnce needs is logged (misses, removals, PREPAREs at the node)
 	lostMode  string // how a PREPARE is made to fail apart from an ERROR answer: "" | garbage | silent | kill
 	kills     int
 	ncon      int
@@ -300,7 +291,7 @@ func (env *vfC14Env) parseKey(s string) (vfC14Key, bool) {
 	if h == "" {
 		return vfC14NoKey, false
 	}
-	const seps = "\x00|:/,"
+	const seps = "\x00|:,"
 	s = strings.TrimLeft(s, seps)
 	for _, k := range []string{"ks1", "ks2"} {
 		if strings.HasPrefix(s, k) {
@@ -435,6 +426,22 @@ func (env *vfC14Env) onEvent(point string, obj interface{}, s string, a int, err
 	if env.sess == nil || obj != interface{}(env.sess.stmtsLRU) {
 		return
 	}
+	if env.lean {
+		key, kok := env.parseKey(s)
+		switch point {
+		case "lru_miss":
+			env.tr.Emit("c_miss", "by", 0, "key", key.arr(), "kok", kok, "len", a)
+		case "lru_remove":
+			env.tr.Emit("c_remove", "by", 0, "key", key.arr(), "kok", kok, "len", a)
+		case "lru_evict":
+			env.tr.Emit("c_evict", "by", 0, "key", key.arr(), "kok", kok, "len", a)
+		case "lru_hit":
+		default:
+			return
+		}
+		env.lastPoint, env.lastKey = point, s
+		return
+	}
 	gid, par := vfC14Goid()
 	own, pe := env.execOfG(gid), env.execOfG(par)
 	key, kok := env.parseKey(s)
@@ -490,7 +497,7 @@ func (env *vfC14Env) onEvicted(k string, value interface{}) {
 }
 
 func (env *vfC14Env) onConn(point string, c *Conn, call *callReq, a, b int, err error) {
-	if point != "x_addcall" || a != 0 || call == nil {
+	if env.lean || point != "x_addcall" || a != 0 || call == nil {
 		return
 	}
 	gid, par := vfC14Goid()
@@ -679,7 +686,9 @@ func (env *vfC14Env) replyPrepare(h *vfC14Held, mode string) {
 	for i := 1; i < st.NCols; i++ {
 		cols = append(cols, vfCol{fmt.Sprintf("x%d", i), vfTInt})
 	}
-	env.tr.Emit("n_prep_reply", "wire", h.wire, "stream", h.f.Stream, "ok", true, "how", "ok", "id", id.json())
+	if !env.lean {
+		env.tr.Emit("n_prep_reply", "wire", h.wire, "stream", h.f.Stream, "ok", true, "how", "ok", "id", id.json())
+	}
 	h.nc.Reply(h.f, vfOpResult, vfPreparedBody(h.f.Version, id.bytes(), h.key.K, "t", st.Arity, cols))
 }
 
@@ -798,6 +807,40 @@ func vfC14Classify(err error) string {
 
 // runExec executes one query / batch on the calling goroutine and logs start and end.
 func (env *vfC14Env) runExec(sp vfC14ExecSpec) {
+	if env.lean {
+		ctx, cancel := context.WithCancel(context.Background())
+		defer cancel()
+		// everything that takes a lock or time is done before the start signal, so that the goroutines of a
+		// round reach the cache within nanoseconds of each other
+		var pin *Conn
+		var text string
+		if sp.Kind == "prepare" && len(sp.Conn) == 2 {
+			pin = env.pinned(sp.Conn[0], sp.Conn[1])
+			text = vfC14StmtByName(sp.Items[0].S).Text
+		}
+		if sp.spin != nil {
+			atomic.AddInt32(sp.ready, 1)
+			for i := 0; atomic.LoadInt32(sp.spin) == 0; i++ {
+				if i&0xfff == 0xfff {
+					runtime.Gosched()
+				}
+			}
+		}
+		var cls string
+		if pin != nil {
+			_, err := pin.prepareStatement(ctx, text, nil)
+			cls = vfC14Classify(err)
+			if err == nil {
+				cls = "prepared"
+			}
+		} else {
+			cls, _, _ = env.execute(ctx, sp)
+		}
+		env.mu.Lock()
+		env.results[sp.E] = cls
+		env.mu.Unlock()
+		return
+	}
 	gid, _ := vfC14Goid()
 	env.register(gid, sp.E)
 	ctx, cancel := context.WithCancel(vfWithReq(context.Background(), sp.E))
